@@ -439,10 +439,12 @@ def check(pid, tier, jobs, seed, only_group=None, verbose=False):
     # --- output
     for kid, k in known_hits.items():
         lines.append(f"KNOWN-FINDING: property={pid} {k['what']}")
-    for it, rp, res in violations:
+    for it, rp, res in violations[:40]:
         lines.append(f"VIOLATION property={pid} replay={rp}")
         lines.append(f"  group={it['group']} obligation={it['label']} sig={it['sig']} reproduced_in={res.get('mode')} "
                      f"detail={json.dumps(res.get('detail'))[:300]}")
+    if len(violations) > 40:
+        lines.append(f"  ... and {len(violations) - 40} more distinct violations (replay files under replays/)")
     for e in harness_errors:
         lines.append('HARNESS-ERROR: ' + e)
     if inconclusive:
